@@ -39,10 +39,14 @@ func main() {
 	verif := flag.String("verif", "/verif", "verification directory (evidence, known findings)")
 	debug := flag.String("debug", "", "debug dump: locks")
 	dump := flag.Bool("dump", false, "print every obligation")
+	mutant := flag.String("mutant", "", "self-test child: apply the named overlay mutant and print the rules that fire")
 	flag.Parse()
 	start := time.Now()
 	if t := os.Getenv("VERIF_TIER"); t != "" && *tier == "" {
 		*tier = t
+	}
+	if *mutant != "" {
+		os.Exit(runMutantChild(*prop, *repo, *mutant))
 	}
 	p, err := loadProg(*repo, nil)
 	if err != nil {
@@ -68,6 +72,9 @@ func main() {
 		}()
 		check(c)
 	}()
+	if *tier == "thorough" {
+		thoroughExtras(c, check, *prop, *repo)
+	}
 	if *dump {
 		for _, ob := range c.R.obs {
 			fmt.Printf("%-4s %-10s %s (%s) %s\n", ob.Rule, ob.Status, ob.At, ob.Pos, ob.Detail)
